@@ -517,3 +517,50 @@ func vfH_compress_toggle() {
 	vfReadBack(wire, !isServer, true, msgs, 0, vfChoose(2))
 	vfReach("toggle-end")
 }
+
+// vfH_json_rt (C01/C03: the WriteJSON and ReadJSON programs): the encoder is an
+// arbitrary io.Writer client, the decoder an arbitrary io.Reader client; the
+// bytes the encoder wrote arrive as one text message and are exactly what the
+// decoder is given.
+func vfH_json_rt() {
+	vfInit()
+	isServer := vfChoose(2) == 1
+	W := vfPick([]int{2, 8})
+	compress := vfChoose(2) == 1
+	vfJSONPieces = vfChoose(3)
+	wt := vfNewConn(nil)
+	wc := newConn(wt, isServer, 0, W, nil, nil, nil)
+	if compress {
+		wc.newCompressionWriter = compressNoContextTakeover
+	}
+	val := "value"
+	vfAssert(wc.WriteJSON(val) == nil, "write-accepted")
+	var want []byte
+	if vfSymbolic() {
+		want = vfJSONWritten
+	} else {
+		want = []byte("\"value\"\n") // what encoding/json writes for the value
+	}
+	wire := wt.wire()
+	vfJudgeWire(wire, !isServer, compress, []vfSent{{TextMessage, want, compress}}, 0)
+	rt := vfNewConn(wire)
+	if vfChoose(2) == 1 {
+		rt.chunkMode = vfChunkOne
+	}
+	rc := vfReaderConn(rt, !isServer, 125)
+	if compress {
+		rc.newDecompressionReader = decompressNoContextTakeover
+	}
+	var got string
+	err := rc.ReadJSON(&got)
+	vfAssert(err == nil, "rt-message-arrives")
+	if vfSymbolic() {
+		vfAssert(len(vfJSONRead) == len(want) && vfAllEq(vfJSONRead, want), "rt-payload")
+	} else {
+		vfAssert(got == val, "rt-payload")
+	}
+	// a second ReadJSON finds no message: an error, never a silent empty value
+	err = rc.ReadJSON(&got)
+	vfAssert(err != nil, "rt-exactly-once")
+	vfReach("json-rt-end")
+}
